@@ -262,7 +262,8 @@ Definition calibrate (es : list ev) (np : nat) (cgs : list string) : res calib :
   let k0 := if tree then 4%nat else 1%nat in
   bind (ref_event es (nth idx gs ""%string) k0) (fun rk =>
   let '(r, y) := rk in
-  Ok (mkcal tree idx shifts (e_ts r + e_dur r - y)%Q))))).
+  (* the reference event is rank 0's: on the common clock its device time includes rank 0's own shift (fix C07) *)
+  Ok (mkcal tree idx shifts (e_ts r + e_dur r - y - nth 0 shifts 0)%Q))))).
 
 (* Python list indexing self.dts_shifts[pid] *)
 Definition shift_at (sh : list Q) (pid : Z) : res Q :=
